@@ -687,13 +687,33 @@ def rule_variant_errors_keep_detail(repo: Repo, rep, rule: str = "R16.15") -> No
     for h in sorted([x for x in own_nodes(su.node) if isinstance(x, ast.ExceptHandler) and x.name], key=lambda x: x.lineno):
         # a handler that *records* the failure: <list>.append(... e ...) with the exception rendered as text
         recs = [c for c in calls_in(h) if isinstance(c.func, ast.Attribute) and c.func.attr == "append" and any(isinstance(y, ast.Name) and y.id == h.name for a in c.args for y in ast.walk(a))]
+        hdl_name = h.name
         if not recs:
             continue
         n += 1
         sub = f"{conv.relpath}:_structure_union rejected-variant record #{n}"
         detail = any((dotted(c.func) or "").split(".")[-1] == "_extract_errors" and any(isinstance(y, ast.Name) and y.id == h.name for y in ast.walk(c)) for r in recs for c in calls_in(r))
         plain = any(isinstance(c.func, ast.Name) and c.func.id in ("str", "repr") and c.args and isinstance(c.args[0], ast.Name) and c.args[0].id == h.name for r in recs for c in calls_in(r))
-        if detail:
+        # ... through a helper of the module that is handed the exception (`_variant_error_summary(e)`): it must walk the group - and must not cut the text it
+        # makes of it (the offending field of a nested union comes *last* in that text: a length cap removes exactly the field name)
+        cut = None
+        if not detail:
+            for r in recs:
+                for c in calls_in(r):
+                    hn = dotted(c.func) or ""
+                    hf = conv.functions.get(hn)
+                    if hf is not None and any(isinstance(a, ast.Name) and a.id == hdl_name for a in c.args):
+                        if any((dotted(c2.func) or "").split(".")[-1] == "_extract_errors" for c2 in calls_in(hf.node)):
+                            detail = True
+                            cuts = [x for x in ast.walk(hf.node) if isinstance(x, ast.Subscript) and isinstance(x.slice, ast.Slice)] + [
+                                c2 for c2 in calls_in(hf.node) if (dotted(c2.func) or "").split(".")[-1] in ("shorten", "wrap", "fill")]
+                            if cuts:
+                                cut = (hf, cuts[0])
+        if detail and cut is not None:
+            rep.violation(rule, sub, f"{su.fq}|variant-error-truncated|{n}",
+                          f"`{norm(cut[1])[:60]}` in `{cut[0].qualname}` caps the text made of the nested errors: for a failure below two Optional / union levels the path is written "
+                          "outside-in and the offending field comes last - the cap removes exactly the field name from the ValueError", cut[0].loc(cut[1]))
+        elif detail:
             rep.ok(rule, sub, "the nested validation errors (field path and reason) are kept", su.loc(recs[0]))
         elif plain:
             rep.violation(rule, sub, f"{su.fq}|variant-error-flattened|{n}",
